@@ -216,6 +216,7 @@ class C08(common.Prop):
             {'kind': 'whole', 's': '{[#TC5]1[#TC5][#TC5]1}.{#TC5=[$]cc[$]}', 'aa': True},
             {'kind': 'whole', 's': '{[#C]([#D])=[#C]}.{#D=COC,#C=C}', 'aa': True},
             {'kind': 'whole', 's': '{[#B][#B]}.{#B=CC(=O[!])O[$]}', 'aa': True},
+            {'kind': 'whole', 's': '{[#C]=[#D]}.{#B=C[$],#D=C(F[$])C[$][!],#C=C1CC1[$]}', 'aa': True},
             {'kind': 'whole', 's': '{[#A](=[#B])[#A]}.{#A=[$]=C[$],#B=[$]=C}', 'aa': True},
             {'kind': 'whole', 's': '{[#A]=1[#B][#A]1}.{#A=[$a]C([$b])O[$a],#B=[$b]C[$b]}', 'aa': True},
             {'kind': 'whole', 's': '{[#X][#X]}.{#X=[#A][#B][$]}.{#A=[$]CC,#B=[$]O[$]}', 'aa': True},
